@@ -12,7 +12,7 @@ C04_RULES = {'GranulesNeverDecrease', 'GranuleIsSampleEnd', 'EosOnlyOnLastPacket
              'RoundTripCount', 'SamplesPerPacket', 'VorbisfileOpens', 'PcmTotalIsN', 'LinearReadDeliversN', 'WroteSucceeds', 'PacketDecodes',
              'HeadersAccepted', 'SynthesisInitSucceeds', 'HalfRateAccepted', 'AnalysisInitSucceedsAfterSetup', 'HeaderOutSucceeds',
              'NoCrash', 'CallsTerminate', 'LibraryNeverExits', 'UnknownEvent'}
-C05_RULES = {'IdHeaderParses', 'IdHeaderConveysInfo', 'SetupHeaderParses', 'SetupHeaderHasNoTrailingBytes', 'SetupHeaderWellFormed', 'AudioPacketHeaderValid', 'WindowFlagsAgree', 'PacketNumbersSequential', 'PacketNotEmpty', 'HeadersAccepted', 'HeaderConveysInfo',
+C05_RULES = {'AudioPacketParses', 'AudioPacketEndsInItsLastByte', 'AudioPacketSelectsWhatTheEncoderReports', 'IdHeaderParses', 'IdHeaderConveysInfo', 'SetupHeaderParses', 'SetupHeaderHasNoTrailingBytes', 'SetupHeaderWellFormed', 'AudioPacketHeaderValid', 'WindowFlagsAgree', 'PacketNumbersSequential', 'PacketNotEmpty', 'HeadersAccepted', 'HeaderConveysInfo',
              'IdHeaderMatchesInfo', 'PacketDecodes', 'ConsumedToLastByte', 'NeverRunsOutOfBits', 'TruncationOnlyUnderHardMax', 'PaddingOnlyUnderHardMin',
              'SynthesisInitSucceeds', 'HeaderOutSucceeds', 'NoRateManagerWhenSwitchedOff', 'AddBlockReturnsZero', 'ChoiceInRange', 'NoCrash', 'CallsTerminate', 'LibraryNeverExits', 'UnknownEvent'}
 
@@ -150,7 +150,7 @@ def check_c04(pid, tier, seed, replay=None):
 # ---------------------------------------------------------------- C05
 MAN_CTL = [None, (1, 0, 0, 64, 1500, 128000, 100), (1, 64, 64, 64, 1500, 16000, 500), (1, 0, 48, 0, 1500, 4000, 200), (1, 40, 0, 0, 1500, 6000, 900), (1, 32, 96, 64, 500, 30000, 0)]
 
-def fam_signals(rng, n, nsamp):
+def fam_signals(rng, n, nsamp, npk=6):
     out = []
     sigs = list(range(10))
     for i in range(n):
@@ -174,12 +174,12 @@ def fam_signals(rng, n, nsamp):
         if rng.random() < .3 and ls[-1] == 'esetup 0':
             ls.insert(-1, rng.choice(['ectl 0 cpset 0', 'ectl 0 lowset 9000', 'ectl 0 ibset -80', 'ectl 0 lowset 30000']))
         N = rng.choice([nsamp, nsamp // 2, nsamp * 2])
-        ls += ['eainit 0', 'ehdr 0 dump', f'ewrite 0 {N} {sig} {rng.choice([1024, 4096, 500])}', 'eeof 0', 'dec 0 p 0 1', 'eclear 0 bdci']
+        ls += ['eainit 0', f'ehdr 0 dump {npk}', f'ewrite 0 {N} {sig} {rng.choice([1024, 4096, 500])}', 'eeof 0', 'dec 0 p 0 1', 'eclear 0 bdci']
         out.append(Scn(f'sig{sig}-{i}-{cfg[0]}ch-{cfg[1]}', ls, 'signal-x-config', budget=120, cost=20 + N * cfg[0] // 150))
     return out
 
 STARVED_CTL = [(1, 0, 0, 40, 1500, 2000, 500), (1, 0, 0, 40, 1500, 1000, 1000), (1, 0, 0, 32, 1500, 4000, 0), (1, 0, 0, 24, 500, 500, 900), (1, 0, 0, 48, 100, 8, 500), (1, 0, 0, 16, 1500, 0, 0)]
-def fam_starved(rng, n, nsamp):
+def fam_starved(rng, n, nsamp, npk=6):
     """average-only management (NO hard limit) starved far below what the signal needs, with small reservoirs at every bias: the floater bottoms out at the
        smallest candidate packet, and that packet must still be complete (only a hard maximum may truncate)"""
     out = []
@@ -187,7 +187,7 @@ def fam_starved(rng, n, nsamp):
     combos = [(b, c, sg) for b in bases for c in STARVED_CTL for sg in (1, 7, 3, 4)]
     rng.shuffle(combos)
     for i, (b, c, sg) in enumerate(combos[:n]):
-        ls = ['einit 0'] + b + ['ectl 0 rm2set ' + ' '.join(map(str, c)), 'esetup 0', 'eainit 0', 'ehdr 0 dump', f'ewrite 0 {nsamp} {sg} 4096', 'eeof 0', 'dec 0 p 0 1', 'eclear 0 bdci']
+        ls = ['einit 0'] + b + ['ectl 0 rm2set ' + ' '.join(map(str, c)), 'esetup 0', 'eainit 0', f'ehdr 0 dump {npk}', f'ewrite 0 {nsamp} {sg} 4096', 'eeof 0', 'dec 0 p 0 1', 'eclear 0 bdci']
         out.append(Scn(f'starved-{i}-sig{sg}', ls, 'starved-average-no-limit', budget=120, cost=20 + nsamp // 75))
     return out
 
@@ -196,21 +196,22 @@ def strict_reader(res):
        TLA+ reader and judges them with IdOK / SetupOK; its verdicts join the violations of the run"""
     import glob
     tps = sorted(glob.glob(os.path.join(res['rundir'], 'b*.ndjson')))
-    def val(tp): return tp, vlib.validate_trace('SetupParse_Trace.tla', 'SetupParse_Trace.cfg', tp, timeout=1200)
+    def val(tp): return tp, vlib.validate_trace('AudioRead_Trace.tla', 'AudioRead_Trace.cfg', tp, timeout=2400)
     with ThreadPoolExecutor(max_workers=8) as ex: rs = list(ex.map(val, tps))
-    out = dict(headers_read=0, books=0, bits=0, states=0)
+    out = dict(headers_read=0, books=0, bits=0, audio_packets_read=0, states=0)
     for tp, r in rs:
-        if r['error'] or not r['ok']: res['infra'].append(f'TLC problem (SetupParse_Trace) on {tp}: ' + r['out'][-600:]); continue
+        if r['error'] or not r['ok']: res['infra'].append(f'TLC problem (AudioRead_Trace) on {tp}: ' + r['out'][-600:]); continue
         out['states'] += r['distinct']; evs = vlib.read_ndjson(tp)
         for m in re.finditer(r'"PARSED (\{.*\})"', r['out']):
             try: v = json.loads(m.group(1).replace('\\"', '"'))
             except Exception: continue
             out['headers_read'] += 1; out['books'] += v['books']; out['bits'] += v['bits']
+        out['audio_packets_read'] += sum(int(x) for x in re.findall(r'PACKETS (\d+)', r['out']))
         for m in re.finditer(r'"VIOL (\{.*\})"', r['out']):
             try: v = json.loads(m.group(1).replace('\\"', '"'))
             except Exception: continue
             v['trace'] = tp; v['script'] = tp[:-7] + '.txt'
-            if 1 <= v['line'] <= len(evs): v['event'] = {k: x for k, x in evs[v['line'] - 1].items() if k not in ('idbytes', 'setupbytes')}
+            if 1 <= v['line'] <= len(evs): v['event'] = {k: x for k, x in evs[v['line'] - 1].items() if k not in ('idbytes', 'setupbytes', 'pbytes')}
             res['viols'].append(v)
     return out
 
@@ -224,8 +225,23 @@ def check_c05(pid, tier, seed, replay=None):
         if kind == 'design':
             os.makedirs(vlib.REPLAY, exist_ok=True); p = os.path.join(vlib.REPLAY, f'{pid}-design-{name}.txt'); open(p, 'w').write(txt)
             extra_viol.append(dict(replay=p, what=f'design-level invariant violated in {name}'))
-    scns = fam_signals(rng, 40 if q else 1500, 12000 if q else 40000) + fam_starved(rng, 8 if q else 120, 16000 if q else 60000)
-    res = run_batch(pid, scns, bindir, 'ench', *TRACE)
+    scns = fam_signals(rng, 40 if q else 1500, 12000 if q else 40000, 6 if q else 12) + fam_starved(rng, 8 if q else 120, 16000 if q else 60000, 6 if q else 12)
+    # design level of the strict readers, alongside the encodes: reader o writer = identity on every generated set-up and packet (Setup_MC), fast = declarative codewords (Codebook_MC)
+    def readers_mc():
+        out = {}
+        for mod, cfg in (('Setup_MC.tla', 'Setup_MC_reader.cfg'), ('Codebook_MC.tla', 'Codebook_MC.cfg')):
+            r = vlib.run_tlc_cached(mod, cfg, workers=10, timeout=1500); out[cfg] = r
+        return out
+    with ThreadPoolExecutor(max_workers=2) as ex0:
+        frm = ex0.submit(readers_mc)
+        res = run_batch(pid, scns, bindir, 'ench', *TRACE, nproc=10)
+        rmc = frm.result()
+    for cfg, r in rmc.items():
+        mc['states'] = mc.get('states', 0) + r['distinct']; mc['transitions'] = mc.get('transitions', 0) + r['generated']; mc.setdefault('readers', {})[cfg] = dict(ok=bool(r['ok']), states=r['distinct'])
+        if r['violated']:
+            os.makedirs(vlib.REPLAY, exist_ok=True); p = os.path.join(vlib.REPLAY, f'{pid}-design-{cfg}.txt'); o = r['out']; i = o.find('Error:'); open(p, 'w').write(o[max(0, i):i + 4000])
+            extra_viol.append(dict(replay=p, what=f'design-level invariant violated under {cfg} (the strict reader does not invert the writer, or the fast codeword assignment differs from the declarative one)'))
+        elif not r['ok']: res['infra'].append(f'TLC failed on {cfg}: ' + r['out'][-600:])
     strict = strict_reader(res)
     def nontrivial(s, evs): return sum(1 for e in evs if e.get('e') == 'DecPkt') >= 3
     npk = sum(1 for s in scns for e in res['scn_events'].get(s.name, []) if e.get('e') == 'DecPkt')
